@@ -145,6 +145,22 @@ def window_codons_on_chunk(lens, strand, frames, expand, realised=False):
             conds.append(OR(*[AND(g[0] == e[0], g[1] == e[1], g[2] == e[2], *[AND(w <= p, p < w + L) for p in e]) for e in exp_all]) if exp_all else False)
         for a, b in zip(got, got[1:]):
             conds.append(a[0] < b[0] if strand is PLUS else a[0] > b[0])
+        # the same window asked in CHROMOSOME coordinates is a chromosome-level answer: the chunk-built CDS lists what its parent-less twin lists (or refuses alike)
+        if not realised:
+            return AND(*conds) if conds else True
+        whole = CDSInterval(starts, ends, strand, fr, guid=45)
+
+        def chrom_scan(o):
+            try:
+                return [[loc.relative_to_parent_pos(i) for i in range(3)] for loc in o.scan_chromosome_codon_locations(ws, we, expand_window_to_partial_codons=expand)]
+            except (BioCantorException, ValueError) as e:  # noqa
+                return type(e).__name__
+
+        ca, cb = chrom_scan(chunk), chrom_scan(whole)
+        if isinstance(ca, str) or isinstance(cb, str):
+            conds.append(isinstance(ca, str) and isinstance(cb, str))
+        else:
+            conds.append(DEQ(ca, cb))
         return AND(*conds) if conds else True
 
     return fn
@@ -612,6 +628,12 @@ def obligations(tier):
                     desc = ("codon window (chromosome start/end%s) on a chunk-built CDS: the chunk-relative scan lists exactly the model codons fully inside "
                             "window and chunk, in frame, whatever window and chunk cut off the 5' end" % (", expanded to partial codons" if expand else ""))
                     if k == 1:
+                        out.append(Obl(name + "_realised", window_codons_on_chunk(lens, strand, frames, expand, realised=True), {"s0": int, "w": int, "ws": int, "wl": int},
+                                       lambda **kw: 100 <= kw["s0"] and kw["s0"] <= 102 and 96 <= kw["w"] and kw["w"] <= 106 and 97 <= kw["ws"] and kw["ws"] <= 110 and
+                                       1 <= kw["wl"] and kw["wl"] <= 12, budget=900, cost=60,
+                                       desc=desc + "; the same window asked in chromosome coordinates (scan_chromosome_codon_locations) equals the parent-less twin's answer",
+                                       bounds="exon length %s, start frame 0, first start 100..102, chunk start 96..106 (length %d), window start 97..110, length 1..12 (realised)" % (lens, L),
+                                       examples=[{"s0": 102, "w": 100, "ws": 103, "wl": 5}, {"s0": 100, "w": 104, "ws": 98, "wl": 12}]))
                         params = {"s0": int, "w": int, "ws": int, "we": int}
                         ex = {"s0": 102, "w": 100, "ws": 103, "we": 108}
                         out.append(Obl(name, window_codons_on_chunk(lens, strand, frames, expand), params,
